@@ -7,13 +7,17 @@ C07 line-protocol driver (fields separated by one space; byte strings hex, `-` =
   match <pat> <name>           path.Match                          → true | false | badpattern
   serve <cwd> <root> <hide> <index> <flags> <path> <orig> <tree>
         hide, index   `.` | hex,hex,…
-        flags         three bits: browse, pass_thru, canonical_uris
+        flags         three bits: browse, pass_thru, canonical_uris; optionally three more: root / hide /
+                      index were configured as {http.vars.…} placeholders expanding to these values
         path, orig    r.URL.Path and the original request's URL.Path
         tree          `.` | hexpath:kind;…   kind = d | f<id> | p | e ; absolute clean paths ≠ "/",
                       strictly sorted bytewise
+        [pre enc]     optional: three bits (precompressed gzip, br, zstd configured) and the list
+                      encode.AcceptedEncodings returns for the request (`.` | hex,hex,…)
         → <outcome> | <names handed to the FS: hex,… or .>
           outcome = notfound | passthru | forbidden | error | unavailable | redirect
                   | file <hexpath> <id> | listing <hexpath> <hexname,… or .>
+                  | sidecar <hexpath> <id> <hexenc>
   matchfile <cwd> <root> <tries> <fallback> <path> <tree>
         tries         `.` | pre:use:suf;…   (hex, 0/1, hex)
         → nomatch | <trace>   or   match <abs> <rel> file|directory | <trace>
@@ -124,6 +128,12 @@ def showOutcome : Outcome → String
   | .redirect => "redirect"
   | .file p id => "file " ++ Hex.encode p ++ " " ++ toString id
   | .listing p ns => "listing " ++ Hex.encode p ++ " " ++ showList ns
+  | .sidecar p id enc => "sidecar " ++ Hex.encode p ++ " " ++ toString id ++ " " ++ Hex.encode enc
+
+/-- the precompressed modules that exist: gzip ↦ .gz, br ↦ .br, zstd ↦ .zst -/
+def precompressors (g b z : Bool) : List (Bytes × Bytes) :=
+  (if g then [(str "gzip", str ".gz")] else []) ++ (if b then [(str "br", str ".br")] else []) ++
+  (if z then [(str "zstd", str ".zst")] else [])
 
 def showMatch : MatchRes → String
   | .noMatch => "nomatch"
@@ -133,6 +143,23 @@ def showGlob : Option Bool → String
   | none => "badpattern"
   | some true => "true"
   | some false => "false"
+
+def handleServe (cwd root hide index flags path orig tree pre enc : String) : String :=
+  match parseList enc, pre.toList.mapM parseBit with
+  | some accepted, some [pg, pb, pz] =>
+    (match Hex.decode cwd, Hex.decode root, parseList hide, parseList index, flags.toList.mapM parseBit,
+          Hex.decode path, Hex.decode orig, parseTree tree with
+    | some cwd, some root, some hide, some index, some (b :: pt :: cn :: ph), some path, some orig, some tree =>
+      -- three more bits: root / hide / index were configured as `{http.vars.…}` placeholders that
+      -- expand to the values given; the model is about the expanded values
+      if ph.length ≠ 0 ∧ ph.length ≠ 3 then "bad-op" else
+      if !isRooted cwd || pathClean cwd ≠ cwd || !validTree tree then "bad-op"
+      else
+        let r := serve (treeFS cwd tree)
+          ⟨cwd, root, hide, index, b, pt, cn, precompressors pg pb pz, accepted⟩ path orig
+        showOutcome r.1 ++ " | " ++ showList r.2
+    | _, _, _, _, _, _, _, _ => "bad-op")
+  | _, _ => "bad-op"
 
 def handle : List String → String
   | ["clean", p] =>
@@ -148,14 +175,9 @@ def handle : List String → String
     | some p, some n => showGlob (globMatch p n)
     | _, _ => "bad-op"
   | ["serve", cwd, root, hide, index, flags, path, orig, tree] =>
-    match Hex.decode cwd, Hex.decode root, parseList hide, parseList index, flags.toList.mapM parseBit,
-          Hex.decode path, Hex.decode orig, parseTree tree with
-    | some cwd, some root, some hide, some index, some [b, pt, cn], some path, some orig, some tree =>
-      if !isRooted cwd || pathClean cwd ≠ cwd || !validTree tree then "bad-op"
-      else
-        let r := serve (treeFS cwd tree) ⟨cwd, root, hide, index, b, pt, cn⟩ path orig
-        showOutcome r.1 ++ " | " ++ showList r.2
-    | _, _, _, _, _, _, _, _ => "bad-op"
+    handleServe cwd root hide index flags path orig tree "000" "."
+  | ["serve", cwd, root, hide, index, flags, path, orig, tree, pre, enc] =>
+    handleServe cwd root hide index flags path orig tree pre enc
   | ["matchfile", cwd, root, tries, fb, path, tree] =>
     match Hex.decode cwd, Hex.decode root, parseTries tries, fb.toList.mapM parseBit, Hex.decode path, parseTree tree with
     | some cwd, some root, some tries, some [fb], some path, some tree =>
@@ -170,8 +192,5 @@ end CaddyModel.C07
 
 namespace CaddyModel.C07
 /-- counter-example lines replayed on the implementation on every run (see Witness.lean) -/
-def witnessLines : List String := [
-  -- Witness.listing_hypothesis_needed: root /srv, index name `sub` (a directory), hide /srv/sub/secret.txt,
-  -- browse, GET /  →  the listing of /srv/sub shows secret.txt
-  "C07 serve 2f77 2f737276 2f7372762f7375622f7365637265742e747874 737562 101 2f 2f 2f737276:d;2f7372762f737562:d;2f7372762f7375622f612e747874:f1;2f7372762f7375622f7365637265742e747874:f2"]
+def witnessLines : List String := []
 end CaddyModel.C07
